@@ -83,7 +83,7 @@ def model (sc : PScn) : String :=
   match start sc with
   | none => "BAD-SCN"
   | some (s0, ops) =>
-    let tr := ptrace phash renderId (leavesOf sc.base false) (pfresh s0 sc.paused) ops
+    let tr := ptrace phash (renderId sc.base) (leavesOf sc.base false) (pfresh s0 sc.paused) ops
     let rec go (sp : Spec) (paused : Bool) : List POp → List (Option (PPassRes PHash String)) → List String
       | .edit s :: ops, _ :: rs => "e" :: go s paused ops rs
       | .setPaused v :: ops, _ :: rs => (if v then "p+" else "p-") :: go sp v ops rs
@@ -146,7 +146,7 @@ def monitor (sc : PScn) (out : String) : String :=
     match obs with
     | none => s!"bad unparsable {out.take 100}"
     | some obs =>
-      match checkPRun phash renderId (leavesOf sc.base false)
+      match checkPRun phash (renderId sc.base) (leavesOf sc.base false)
           { spec := s0, paused := sc.paused, ph := none, pod := none, podp := none, lateSeen := false, idx := 0 }
           ops obs with
       | [] => "ok"
